@@ -136,10 +136,10 @@ def apply_op(mab, op, catch=True):
             mab.partial_fit(op[1], op[2], op[3]) if op[3] is not None else mab.partial_fit(op[1], op[2])
             return None
         if name == "predict":
-            return canon("predict", mab.predict(op[1]) if op[1] is not None else mab.predict())
+            return canon("predict", mab.predict(_ctx(op[1])) if op[1] is not None else mab.predict())
         if name == "predict_expectations":
             return canon("predict_expectations",
-                         mab.predict_expectations(op[1]) if op[1] is not None else mab.predict_expectations())
+                         mab.predict_expectations(_ctx(op[1])) if op[1] is not None else mab.predict_expectations())
         if name in ("predict_series", "predict_expectations_series"):
             # [name, values]: the query given as a pandas Series (one feature: one row per value; else one row)
             import pandas as pd
